@@ -520,10 +520,20 @@ func plaintext(c Cell) (*ev.Failure, bool) {
 				got <- buf[:n]
 			}()
 		}
+		tlsCfg := &exporter.ExporterTLSClientConfig{ServerName: "localhost", CAData: caGood.CertPEM}
+		proto := c.Proto
+		switch c.ClientCert { // security settings that cannot be used: still no fallback to plaintext
+		case "garbage_ca":
+			tlsCfg.CAData = []byte("-----BEGIN CERTIFICATE-----\nbm90IGEgY2VydGlmaWNhdGU=\n-----END CERTIFICATE-----\n")
+		case "empty_ca":
+			tlsCfg.CAData = nil
+		case "mismatched_client_keypair":
+			tlsCfg.CertData, tlsCfg.KeyData = clientCerts["trusted"].CertPEM, clientCerts["other_ca"].KeyPEM
+		}
 		func() {
 			defer func() { recover() }() // a process left without a connection panics on use; not judged here
-			ep, err := exporter.InitExportingProcess(exporter.ExporterInput{CollectorAddress: addr, CollectorProtocol: c.Proto, ObservationDomainID: 4242, TempRefTimeout: 3600,
-				TLSClientConfig: &exporter.ExporterTLSClientConfig{ServerName: "localhost", CAData: caGood.CertPEM}, CheckConnInterval: time.Hour})
+			ep, err := exporter.InitExportingProcess(exporter.ExporterInput{CollectorAddress: addr, CollectorProtocol: proto, ObservationDomainID: 4242, TempRefTimeout: 3600,
+				TLSClientConfig: tlsCfg, CheckConnInterval: time.Hour})
 			if err != nil || ep == nil {
 				return
 			}
@@ -817,6 +827,13 @@ func cells() []Cell {
 		Cell{Dir: "plaintext", Plain: "secured_exporter_other_network_name", Proto: "tcp6"},
 		Cell{Dir: "plaintext", Plain: "secured_exporter_other_network_name", Proto: "udp4"},
 		Cell{Dir: "plaintext", Plain: "secured_exporter_other_network_name", Proto: "udp6"},
+		// security settings that cannot be used (unparsable or missing CA, client certificate and key that
+		// do not belong together): against a plain socket, nothing may travel in clear
+		Cell{Dir: "plaintext", Plain: "secured_exporter_other_network_name", Proto: "tcp", ClientCert: "garbage_ca"},
+		Cell{Dir: "plaintext", Plain: "secured_exporter_other_network_name", Proto: "udp", ClientCert: "garbage_ca"},
+		Cell{Dir: "plaintext", Plain: "secured_exporter_other_network_name", Proto: "tcp", ClientCert: "empty_ca"},
+		Cell{Dir: "plaintext", Plain: "secured_exporter_other_network_name", Proto: "udp", ClientCert: "empty_ca"},
+		Cell{Dir: "plaintext", Plain: "secured_exporter_other_network_name", Proto: "tcp", ClientCert: "mismatched_client_keypair"},
 	)
 	return out
 }
